@@ -67,7 +67,7 @@ M_C04_Refused == (IsReqS /\ S.msg.kind \in {"New","Restart"} /\ ~ValOK) => (~Rep
 M_C04_Faithful == (IsReqS /\ S.msg.kind \in {"New","Restart"} /\ ReplyM.accepted) => (ReplyM.v = S.val.vres)
 M_C02_Final == (Had /\ P.status \in Terminal) => rec = P
 M_C05_Entitled == ((IsReqS \/ S.kind \in {"RecvResponse","OnResponseReceived","RecvRestartExisting"}) /\ Had /\ ~Addresses(S)) => rec = P
-M_C18_Dup == (IsReqS /\ S.msg.kind = "New" /\ Had) => (rec = P /\ ~ReplyM.accepted)
+M_C18_Dup == (IsReqS /\ S.msg.kind = "New" /\ Had /\ Addresses(S)) => (rec = P /\ ~ReplyM.accepted)
 M_C10_Identity == (S.kind = "Restart" /\ Had) => (<<rec.queued, rec.sent, rec.received, rec.qIdx, rec.sIdx, rec.rIdx>> = <<P.queued, P.sent, P.received, P.qIdx, P.sIdx, P.rIdx>>)
 M_C10_Skip == \A i \in 1..Len(O.tr) : (O.tr[i].call = "open" /\ O.tr[i].hasChan) => O.tr[i].skip = P.rIdx
 M_C09_Close == (S.kind = "Close" /\ Had /\ P.status \notin Terminal) => rec.status = "Cancelled"
